@@ -12,20 +12,23 @@ import omen_gen_tie
 GEN = "gen/TrainerRun_gen.v"
 PARTS = {
     "equalities": ("theories/TrainerRunGenProofs.v",
-                   "translator-tie:translated run_trainer (three passes, what is reset between them, print_statistics -> "
-                   "save_config_file -> save_omen_rules_to_disk -> save_pcfg_data), print_statistics (reads only), "
-                   "PCFGPasswordParser.__init__ (the counters start empty), parse_command_line / main (options -> program_info, "
-                   "coverage range) = the model TrainerRunModel.v for every collaborator (gen/TrainerRun_gen.v, TrainerRunGenProofs.v)"),
+                   "translator-tie:translated run_trainer / print_statistics / PCFGPasswordParser.__init__ / parse_command_line / "
+                   "main = model TrainerRunModel.v (TrainerRunGenProofs.v)"),
     "facts": ("theories/TrainerRunGenFacts.v",
-              "translator-tie:the three passes fold over one sequence, the writers get the parser pass 2 produced "
-              "(TrainerRunGenFacts.v over gen/TrainerRun_gen.v)"),
+              "translator-tie:three passes over one sequence, writers get the parser of pass 2 (TrainerRunGenFacts.v)"),
     "instance": ("theories/TrainerRunInst.v",
-                 "translator-tie:translated run_trainer on the component models (Reader.read_text, Segment.train / parse, the "
-                 "translated print_statistics / Markov block / save_pcfg_data) = Pipeline.train, then Pipeline.save on disk "
+                 "translator-tie:translated run_trainer on the component models = Pipeline.train + Pipeline.save on disk "
                  "(TrainerRunInst.v)"),
 }
 
 
 def obligations(parts=("equalities", "facts", "instance")):
-    """-> [(name, ok, detail)] for the `corr` list of C19 / C06 / C05 / C03"""
-    return [omen_gen_tie.status(PARTS[p][1], GEN, PARTS[p][0]) for p in parts]
+    """-> [(name, ok, detail)] for the `corr` list of C19 / C06 / C05 / C03.  The files of "facts" and "instance"
+    import the equalities: while those do not check they are not reported a second time."""
+    out = []
+    for p in parts:
+        st = omen_gen_tie.status(PARTS[p][1], GEN, PARTS[p][0])
+        out.append(st)
+        if p == "equalities" and not st[1]:
+            break
+    return out
